@@ -300,6 +300,71 @@ def main():
             break
         kept.append((i, c["fmt"], d, plain(d)))
     res["decode"] = dict(n=len(kept), bad=bad_dec)
+    # (g) parameter-list commands in a history — valid ones, and the same with one nested key removed so that the construction FAILS
+    # half-way: what OTHER command classes decode / encode afterwards is what they decoded / encoded before (a table borrowed from another
+    # class and not handed back, a half-updated shared structure)
+    from pyscsi.pyscsi.scsi_cdb_inquiry import Inquiry
+    VPD83 = bytes([0x00, 0x83, 0x00, 0x18,
+                   0x61, 0x93, 0x00, 0x08, 0x50, 0x01, 0x02, 0x03, 0x04, 0x05, 0x06, 0x07,          # NAA, PIV, target port
+                   0x02, 0x01, 0x00, 0x08, 0x41, 0x42, 0x43, 0x44, 0x45, 0x46, 0x47, 0x48])         # T10 vendor id
+
+    def probes():
+        out = []
+        try:
+            d = Inquiry.unmarshall_datain(bytearray(VPD83), evpd=1)
+            out.append(repr(plain(d)))
+            out.append(bytes(Inquiry.marshall_datain(d)).hex())
+        except Exception as e:  # noqa
+            out.append("exn:" + type(e).__name__)
+        for c0 in cases[:3]:
+            try:
+                out.append(mk(c0)[1].hex())
+            except Exception as e:  # noqa
+                out.append("exn:" + type(e).__name__)
+        return out
+
+    def nested_keys(x, depth=0, acc=None):
+        acc = [] if acc is None else acc
+        if isinstance(x, dict):
+            for k, v in x.items():
+                if depth >= 1 and not (isinstance(k, str) and k == "b"):
+                    acc.append((x, k))
+                nested_keys(v, depth + 1, acc)
+        elif isinstance(x, list):
+            for v in x:
+                nested_keys(v, depth + 1, acc)
+        return acc
+    res["param_history"] = None
+    rng_g = random.Random(inp.get("seed", 0) ^ 0x6)
+    gcases = spec_params.cases(random.Random(inp.get("seed", 0) ^ 0x66), inp.get("n_param_hist", 4))
+    base_p = probes()
+    for i, c in enumerate(gcases):
+        for corrupted in (False, True):
+            kw = copy.deepcopy(c["kw"])
+            if corrupted:
+                ks = nested_keys(kw)
+                if not ks:
+                    continue
+                dct, k = rng_g.choice(ks)
+                del dct[k]
+            try:
+                cls_g, op_g = C[c["cls"]]
+                cls_g(op_g, *conv(copy.deepcopy(c["pos"])), **conv(kw))
+                outcome = "built"
+            except Exception as e:  # noqa
+                outcome = "refused with " + type(e).__name__
+            now_p = probes()
+            if now_p != base_p:
+                idx = next(n for n, (a, b) in enumerate(zip(base_p, now_p)) if a != b)
+                res["param_history"] = dict(case=i, corrupted=corrupted, command=c["kind"],
+                                            what="after a %s command was %s (%s arguments), %s gives %s instead of %s" % (
+                                                c["kind"], outcome, "incomplete" if corrupted else "valid",
+                                                ["decoding a Device Identification VPD page with Inquiry", "rebuilding that page with Inquiry",
+                                                 "building parameter list 0", "building parameter list 1", "building parameter list 2"][min(idx, 4)],
+                                                str(now_p[idx])[:160], str(base_p[idx])[:160]))
+                break
+        if res["param_history"]:
+            break
     # (f) first use: two threads using one command class for the first time in the process (modules imported afresh for every schedule)
     res["cold"] = []
     for pair in inp.get("cold_pairs", []):
